@@ -123,7 +123,8 @@ def run(prop, tier, seed):
             kdir = os.path.join(scratch, 'crate')
             target = os.path.join(scratch, 'target')
             try:
-                kani_run.prepare(REPO, kdir)
+                keep = set(h['name'] for h in sel) | set(h['twin'] for h in sel if h['twin'])
+                kani_run.prepare(REPO, kdir, keep=keep)
                 b = kani_run.build(kdir, target)
             except kani_run.PrepError as e:
                 b = dict(ok=False, output=str(e), seconds=0)
@@ -300,8 +301,8 @@ def replay(prop, path):
     scratch = tempfile.mkdtemp(prefix='asca-verif-replay-')
     try:
         kdir = os.path.join(scratch, 'crate')
-        kani_run.prepare(REPO, kdir)
         h = [x for x in harness_catalog() if x['full'] == e['harness']][0]
+        kani_run.prepare(REPO, kdir, keep={h['name']})
         log = []
         confirmed, detail = native_replay(kdir, h, e['playback_test'], log)
         print('native replay of %s: %s %s' % (e['harness'], 'assertion FAILS (violation reproduced)' if confirmed else 'passes' if confirmed is False else 'could not run', detail))
